@@ -133,13 +133,35 @@ let hdump t u (h : hstate) : string =
   let cells = List.init np (fun p -> dump u (view t (nat_of_int p) h)) in
   String.concat " | " (String.trim (Buffer.contents buf) :: cells)
 
-let run_hier () =
+(* K cases: like T, with the kinds of collection each pair registers and DeleteWhere (Links/HierWhere.v)
+     K <nkA> <ext>.. <nkB> <ext>.. <np> { <lvA> <lvB> <kind> }.. <universes> <ntx> { <nops> <op>.. }..
+   kind := b (link collection and ref-counted link collection) | l (link collection only)
+         | r (ref-counted only) | n (neither)
+   op := the operations of T | DW <lv> sd - <all 0|1> <n> <id>..   DeleteWhere through the store of that level,
+         filter `true` (all = 1) or membership of the id in the list *)
+let next_xop () =
+  match !toks with
+  | "DW" :: _ ->
+    let _ = next () in
+    let w = next_int () in
+    let sd = next_side () in
+    let _ = next () in
+    let all = (next () = "1") in
+    XDeleteWhere (sd, nat_of_int w, all, next_ids ())
+  | _ -> XOp (next_hop ())
+
+let run_hier kinded =
   let flags () = let n = next_int () in List.init n (fun _ -> next () = "1") in
   let ka = flags () in
   let kb = flags () in
   let np = next_int () in
-  let prs = List.init np (fun _ -> let a = next_int () in let b = next_int () in (nat_of_int a, nat_of_int b)) in
-  let t = { kids = (fun sd -> if sd then ka else kb); pairs = prs } in
+  let prs = List.init np (fun _ ->
+    let a = next_int () in let b = next_int () in
+    let k = if kinded then (match next () with
+      | "b" -> (true, true) | "l" -> (true, false) | "r" -> (false, true) | "n" -> (false, false)
+      | s -> failwith ("bad kind " ^ s)) else (true, true) in
+    ((nat_of_int a, nat_of_int b), k)) in
+  let t = { kids = (fun sd -> if sd then ka else kb); pairs = List.map fst prs; kinds = List.map snd prs } in
   let ua = next_ids () in
   let ub = next_ids () in
   let u = (ua, ub) in
@@ -148,9 +170,9 @@ let run_hier () =
   let blocks = ref [] in
   for _ = 1 to ntx do
     let nops = next_int () in
-    let ops = List.init nops (fun _ -> next_hop ()) in
-    let v = match hfirst_failure t u ops !h O with None -> "ok" | Some i -> "f" ^ string_of_int (int_of_nat i) in
-    let (_, h') = run_htx t u ops !h in
+    let ops = List.init nops (fun _ -> next_xop ()) in
+    let v = match xfirst_failure t u ops !h O with None -> "ok" | Some i -> "f" ^ string_of_int (int_of_nat i) in
+    let (_, h') = run_xtx t u ops !h in
     h := h';
     blocks := (v ^ " " ^ hdump t u !h) :: !blocks
   done;
@@ -166,6 +188,7 @@ let () =
         match next () with
         | "H" -> print_endline (run_history ())
         | "S" -> print_endline (run_set_links ())
-        | "T" -> print_endline (run_hier ())
+        | "T" -> print_endline (run_hier false)
+        | "K" -> print_endline (run_hier true)
         | _ -> print_endline "?"
       with Failure m -> print_endline ("driver-error:" ^ m)))
